@@ -298,3 +298,30 @@ func NewServer(vrfs []string, opts ...server.ServerOpt) (*server.Server, error) 
 	}
 	return s, nil
 }
+
+// StalledGet starts s.Get on a direct stream whose stallAt-th Send blocks until release is
+// called (a reader that has stopped reading for a while). stalled is closed when the
+// stream is blocked there; done receives what Get returned.
+func StalledGet(s spb.GRIBIServer, req *spb.GetRequest, stallAt int) (g *GetStream, stalled <-chan struct{}, release func(), done <-chan error) {
+	ctx, cancel := context.WithCancel(context.Background())
+	st := make(chan struct{})
+	rel := make(chan struct{})
+	var once, relOnce sync.Once
+	g = &GetStream{baseStream: baseStream{ctx, cancel}}
+	g.OnSend = func(n int) {
+		if n == stallAt {
+			once.Do(func() { close(st) })
+			<-rel
+		}
+	}
+	d := make(chan error, 1)
+	go func() { d <- s.Get(req, g); cancel() }()
+	return g, st, func() { relOnce.Do(func() { close(rel) }) }, d
+}
+
+// Received returns a copy of what the stream has received so far.
+func (g *GetStream) Received() []*spb.GetResponse {
+	g.mu.Lock()
+	defer g.mu.Unlock()
+	return append([]*spb.GetResponse{}, g.Got...)
+}
